@@ -320,9 +320,6 @@ def judgeSched (a : Acc) (l : String) (op obs : List String) : J Acc := do
     if st != "err:sched" then .error (.mismatch s!"every={ev} cron={cron}: the model rejects the schedule, the node said {st}")
     pure (a.add (if ev < 0 then "sched-reject-negative" else if ev = 0 then "sched-reject-none" else "sched-reject-both"))
   | some sch =>
-    if st != "ok" then
-      if st == "err:sched" then .error (.mismatch s!"every={ev} cron={cron}: the model accepts the schedule, the node rejected it")
-      else bad s!"task did not start ({st}): {l}"
     let K := cron * 1000000000
     let next : Int → Option Int := match sch with
       | .every d x => fun t => some (tickerNext d x t)
@@ -337,6 +334,9 @@ def judgeSched (a : Acc) (l : String) (op obs : List String) : J Acc := do
         .error (.specfail "no-crash-on-settings" s!"group by time({gbCfg}) was accepted; with alignGroup the first tick divides by zero")
       if st != "err:dims" then .error (.mismatch s!"time dimension {gbCfg}: the model refuses it, the node said {st}")
       return ({ a with nt := true }.add "dims-rejected-task")
+    if st != "ok" then
+      if st == "err:sched" then .error (.mismatch s!"every={ev} cron={cron}: the model accepts the schedule, the node rejected it")
+      else bad s!"task did not start ({st}): {l}"
     let q0 := newQuery user gbCfg ag extraCfg
     -- (6) sources
     let hsrc := parseDBRPs ((kvGet obs "hsrc").getD "")
